@@ -153,10 +153,17 @@ pub mod sampled_total {
     use crate::snap::MAX_SNAPSHOT_ITEMS;
     use libtw2_packer::IntUnpacker;
 
+    /// largest single allocation request the parsers may make for an input of `n` ints: "a small multiple of the
+    /// input" (C11) -- Vec doubling and BTreeMap nodes stay far below this; an allocation sized by a length field
+    /// of the input does not
+    pub fn alloc_limit(n_ints: usize) -> usize {
+        16 * 1024 + 64 * 4 * n_ints
+    }
     pub fn contract_readers_total(snap_ints: &[i32], delta_ints: &[i32], agreed: bool) {
         let mut w: Vec<crate::format::Warning> = Vec::new();
         let mut a = Snap::empty();
-        let ok = a.read_from_ints(&mut w, snap_ints).is_ok();
+        let (ok, req) = super::alloc_watch::measure(|| a.read_from_ints(&mut w, snap_ints).is_ok());
+        assert!(req <= alloc_limit(snap_ints.len()), "Snap::read_from_ints requested {} bytes at once for {} input ints", req, snap_ints.len());
         if !ok {
             a = Snap::empty();
         }
@@ -169,14 +176,69 @@ pub mod sampled_total {
         let mut d = Delta::new();
         let mut p = IntUnpacker::new(delta_ints);
         let size = move |t: u16| if agreed && t < 8 { Some((t % 4) as u32) } else { None };
-        if d.read_from_ints(&mut w, size, &mut p).is_ok() {
+        let (dok, req) = super::alloc_watch::measure(|| d.read_from_ints(&mut w, size, &mut p).is_ok());
+        assert!(req <= alloc_limit(delta_ints.len()), "Delta::read_from_ints requested {} bytes at once for {} input ints", req, delta_ints.len());
+        if dok {
             let mut b = Snap::empty();
-            if b.read_with_delta(&mut w, &a, &d).is_ok() {
+            let (pok, req) = super::alloc_watch::measure(|| b.read_with_delta(&mut w, &a, &d).is_ok());
+            assert!(req <= alloc_limit(snap_ints.len() + delta_ints.len()), "Snap::read_with_delta requested {} bytes at once for {} input ints", req, snap_ints.len() + delta_ints.len());
+            if pok {
                 assert!(b.items().count() <= MAX_SNAPSHOT_ITEMS);
                 let m = b.write_to_ints(&mut keys, &mut out).expect("a patched snapshot can be written").len();
                 assert!(m * 4 <= 65536);
             }
         }
+    }
+}
+
+// ---- allocation watch (C11: "never allocates beyond a small multiple of the input") --------------------------------
+// A counting global allocator for the test binary of this crate under --cfg libtw2_verif (never under Kani): records,
+// per thread and only inside measure(), the largest single request.  Requests are passed on to the system allocator
+// unchanged (a huge untouched reservation succeeds under overcommit, so a violation is reported, not a crash).
+#[cfg(not(kani))]
+pub mod alloc_watch {
+    use std::alloc::GlobalAlloc;
+    use std::alloc::Layout;
+    use std::alloc::System;
+    use std::cell::Cell;
+    thread_local! {
+        static ON: Cell<bool> = const { Cell::new(false) };
+        static MAX_REQ: Cell<usize> = const { Cell::new(0) };
+    }
+    fn note(n: usize) {
+        let _ = ON.try_with(|on| {
+            if on.get() {
+                let _ = MAX_REQ.try_with(|m| m.set(m.get().max(n)));
+            }
+        });
+    }
+    pub struct Watch;
+    unsafe impl GlobalAlloc for Watch {
+        unsafe fn alloc(&self, l: Layout) -> *mut u8 {
+            note(l.size());
+            System.alloc(l)
+        }
+        unsafe fn alloc_zeroed(&self, l: Layout) -> *mut u8 {
+            note(l.size());
+            System.alloc_zeroed(l)
+        }
+        unsafe fn dealloc(&self, p: *mut u8, l: Layout) {
+            System.dealloc(p, l)
+        }
+        unsafe fn realloc(&self, p: *mut u8, l: Layout, new_size: usize) -> *mut u8 {
+            note(new_size);
+            System.realloc(p, l, new_size)
+        }
+    }
+    #[global_allocator]
+    static WATCH: Watch = Watch;
+    /// runs `f` and returns the largest single allocation request made by this thread meanwhile
+    pub fn measure<R>(f: impl FnOnce() -> R) -> (R, usize) {
+        MAX_REQ.with(|m| m.set(0));
+        ON.with(|o| o.set(true));
+        let r = f();
+        ON.with(|o| o.set(false));
+        (r, MAX_REQ.with(|m| m.get()))
     }
 }
 
@@ -204,11 +266,15 @@ pub mod sampled_party {
         /// acknowledgement handling after this step: 0 none, 1 current ack_tick, 2 an older ack delivered late
         pub ack: usize,
         pub gap: i32,
+        /// the world did not change since the snapshot the sender currently deltas against: the sender then transmits
+        /// "nothing changed" (SnapEmpty: delta_chunks over empty data) like the reference server does
+        pub repeat: bool,
     }
     pub fn contract_two_party(steps: &[Step], agreed: bool) {
         let mut sender = Storage::new();
         let mut receiver = Manager::new();
         let mut built: Vec<(i32, Vec<Item>)> = Vec::new();
+        let mut added: Vec<(i32, Vec<Item>)> = Vec::new();
         let mut old_acks: Vec<i32> = Vec::new();
         let mut tick: i32 = 10;
         let mut warnings: Vec<crate::manager::Warning> = Vec::new();
@@ -222,11 +288,18 @@ pub mod sampled_party {
             let mut b = sender.new_builder();
             let delta_tick = sender.delta_tick().unwrap_or(-1);
             let mut accepted: Vec<Item> = Vec::new();
-            for (t, id, data) in &st.items {
+            // (in the order in which they were added then: the raw ids of UUID types depend on it)
+            let base_items: Option<Vec<Item>> = if delta_tick == -1 { Some(Vec::new()) } else { added.iter().find(|(t, _)| *t == delta_tick).map(|(_, i)| i.clone()) };
+            let step_items: Vec<Item> = match (&base_items, st.repeat) {
+                (Some(b), true) => b.clone(),
+                _ => st.items.clone(),
+            };
+            for (t, id, data) in &step_items {
                 if b.add_item(*t, *id, data).is_ok() {
                     accepted.push((*t, *id, data.clone()));
                 }
             }
+            added.push((tick, accepted.clone()));
             accepted.sort();
             let snap = b.finish();
             assert!(view(&snap) == accepted);
@@ -236,6 +309,11 @@ pub mod sampled_party {
             {
                 let delta = sender.add_snap(tick, snap);
                 with_packer(&mut bytes, |p| delta.write(super::sampled::obj_size(agreed), p).map(|_| ())).unwrap();
+            }
+            // "nothing changed" is what the delta says (no deletions, no updates: three zero ints), not what the views say
+            let unchanged = st.repeat && bytes == [0u8, 0, 0];
+            if unchanged {
+                bytes.clear();
             }
             let parts: Vec<SnapMsg> = delta_chunks(tick, delta_tick, &bytes, crc).collect();
             let mut order: Vec<usize> = Vec::new();
@@ -253,7 +331,7 @@ pub mod sampled_party {
                 match res {
                     Ok(Some(got)) => {
                         let want = &built.iter().find(|(t, _)| *t == tick).unwrap().1;
-                        assert!(&got == want, "accepted snapshot differs from the one the sender built for that tick");
+                        assert!(&got == want, "accepted snapshot differs from the one the sender built for that tick (tick {}, delta base {}, unchanged-world message: {}; got {:?}, want {:?})", tick, delta_tick, unchanged, &got[..got.len().min(4)], &want[..want.len().min(4)]);
                         assert!(receiver.ack_tick() == Some(tick), "accepted but not acknowledged");
                     }
                     Ok(None) => assert!(receiver.ack_tick() == before, "acknowledged tick moved without an accepted snapshot"),
@@ -446,7 +524,7 @@ pub mod proofs {
                 }
             }
             let deliveries: Vec<usize> = (0..draw::usize_le(4)).map(|_| draw::usize_le(5)).collect();
-            steps.push(Step { items, deliveries, clean: draw::usize_le(3) != 0, ack: draw::usize_le(3), gap: 1 + draw::usize_le(3) as i32 });
+            steps.push(Step { items, deliveries, clean: draw::usize_le(3) != 0, ack: draw::usize_le(3), gap: 1 + draw::usize_le(3) as i32, repeat: draw::usize_le(3) == 0 });
         }
         let agreed = draw::bool();
         draw::reached();
